@@ -157,7 +157,11 @@ func (c02) RunCase(c *fw.Ctx, rng *fw.RNG, batch, i int) {
 		}
 		c.Count("permutation_cases", 1)
 	default:
-		v = model.Gen(rng, c02Opts)
+		opts := c02Opts
+		if deepCase(c, i) {
+			opts.MaxDepth, opts.MaxWidth = 8, 12
+		}
+		v = model.Gen(rng, opts)
 	}
 	c.SetCase(func() any { return map[string]any{"mode": mode, "value": v.Dump()} })
 	st := v.Stats()
